@@ -95,6 +95,7 @@ func vC14Run(bkt *vBucket, scenario int) ([]vRow, error, int64) {
 			return nil, err, 0
 		}
 		tables["t"] = r
+		vC14Handle = r
 		if err := Vacuum(vCtx, "t", time.Unix(0, 1<<40)); err != nil {
 			return nil, err, 0
 		}
@@ -198,6 +199,25 @@ func VerifH_C14_faults() {
 		symAssert(err == nil, "open-after-retry-ok")
 		symAssert(vRowsEq(again, all), "retried-transaction-visible")
 		symReach("retried")
+	}
+	if scenario == 4 && vC14Handle != nil {
+		// the connection that ran the vacuum (failed or not) writes again:
+		// a commit it gets acknowledged is complete in the bucket (C16)
+		r := vC14Handle
+		if vIns(r, 6000, int64(8), int64(80), nil) == nil && r.Commit(vCtx) == nil {
+			again, err := vFreshRows(bkt)
+			symAssert(err == nil, "version-committed-after-the-vacuum-is-readable")
+			seen := false
+			for _, x := range again {
+				if symDeepEq(x.k, int64(8)) {
+					seen = true
+				}
+			}
+			symAssert(seen, "write-acknowledged-after-the-vacuum-is-visible")
+			symReach("wrote-after-vacuum")
+		} else {
+			r.Tree.Root.Cancel()
+		}
 	}
 	// once the fault clears a new connection sees all previously committed data...
 	after, err := vFreshRows(bkt)
